@@ -82,7 +82,10 @@ theorem fillFrame_eq_fill (n : Nat) : ∀ (fuel : Nat) (b : Bytes) (rs : List By
 
 /-! ### `readHdr` -/
 
-/-- what one call of `_read_hdr` guarantees, relative to the state `(buf, rs)` it started from -/
+/-- what one call of `_read_hdr` guarantees, relative to the state `(buf, rs)` it started from.
+    `none` = returned to the thread loop without a header: the scan of what is left is unchanged and
+    either the measure decreased (an empty read, no start byte, or — since the F20 repair — an
+    undecodable header with one byte dropped) or nothing at all happened on an exhausted script -/
 def HdrPost (c : Codec) (buf : Bytes) (rs : List Bytes) (r : HdrRes) : Prop :=
   match r.hdr with
   | none =>
@@ -184,7 +187,11 @@ theorem readHdr_spec : ∀ (fuel : Nat) (buf : Bytes) (rs : List Bytes), mu buf 
             have hne : x.drop i ≠ [] := by rw [ht]; simp
             have hmu1 : mu ((x.drop i).drop 1) frs < mu buf rs := by
               simp [mu] at hmu ⊢; omega
-            refine HdrPost_step ?_ hmu1 (ih _ _ (by omega))
+            -- F20 repair: the bad-header branch returns (one byte dropped) instead of looping;
+            -- the `none` post-condition "same scan, smaller measure" covers it directly
+            unfold HdrPost
+            simp only
+            refine ⟨?_, Or.inl hmu1⟩
             rw [hscan, scan_badhdr hc _ e (hfind0 _) (by simp; omega)
               (by rw [hdrDecode_append hc _ (by omega)]; exact hdec)]
             rw [ht]; simp
